@@ -53,6 +53,10 @@ def check_window(data: bytes, start: int, length: int) -> list[str]:
 def replay(case: dict) -> list[str]:
     if case["kind"] == "message":
         return check_message(bytes.fromhex(case["msg"]))
+    if case.get("history"):
+        # replay files of the history phases (re-use of objects, failing calls, nested calls) re-run the whole phase
+        pp = _work_long(("reuse", case.get("seed", 0)))
+        return [v["what"] for v in pp.v]
     return check_window(bytes.fromhex(case["data"]), case["start"], case["length"])
 
 
@@ -226,7 +230,7 @@ def _work_long(task) -> core.Part:
             p.add("windows")
             if got != exp:
                 p.viol("window", f"window:reuse:{name}:{what}:{st}:{ln}", f"compute_checksum on a re-used {name} object ({what}), window ({st}, {ln}) = {got:#06x}, reference {exp:#06x}",
-                       {"kind": "window", "data": bytes(obj).hex(), "start": st, "length": ln}, size=ln)
+                       {"kind": "window", "data": bytes(obj).hex(), "start": st, "length": ln, "history": True, "seed": seed}, size=ln)
 
         for rep in range(6):
             order = wins if rep % 2 == 0 else list(reversed(wins))
@@ -242,6 +246,56 @@ def _work_long(task) -> core.Part:
                     one(buf, "bytearray", st, ln + 3, f"round {rep}, window grown by 3 after an in-place change")
             if p.full("window"):
                 return p
+        # a call that fails (window reaching beyond the buffer, an argument of the wrong kind) must leave nothing behind:
+        # every window is computed again right after each kind of failing call
+        def failing_calls():
+            yield "window beyond the end of the buffer", lambda: F.compute_checksum(frozen, 40, 20)
+            yield "start beyond the end of the buffer", lambda: F.compute_checksum(frozen, 48, 1)
+            yield "text instead of bytes", lambda: F.compute_checksum("0123456789", 2, 5)
+            yield "a list holding a non-integer", lambda: F.compute_checksum([1, 2, None, 4], 0, 4)
+            yield "update() with a non-integer", lambda: F().update("x")
+        for label, bad in failing_calls():
+            for st, ln in wins:
+                try:
+                    bad()
+                except Exception:  # noqa: BLE001  (how it fails is not the property's business)
+                    pass
+                one(frozen, "bytes", st, ln, f"right after a failing call ({label})")
+                f = F()
+                for b_ in frozen[st:st + ln]:
+                    f.update(b_)
+                if f.checksum != R.fcs16_fast(frozen[st:st + ln]):
+                    p.viol("window", f"window:afterfail:inc:{label}:{st}:{ln}", f"incremental checksum right after a failing call ({label}) wrong for window ({st}, {ln})", {"kind": "window", "data": frozen.hex(), "start": st, "length": ln, "history": True, "seed": seed}, size=ln)
+        # re-entrancy: compute_checksum is a pure function.  The data argument is a bytes object whose item access runs a
+        # complete second computation (on another buffer) at access number k - every k: all interleavings of two calls
+        # with one preemption at item-access granularity
+        other = bytes(rnd.randrange(256) for _ in range(9))
+        other_exp = R.fcs16_fast(other)
+
+        class Preempting(bytes):
+            at = -1
+            n = 0
+            inner = None
+
+            def __getitem__(self, i):
+                if isinstance(i, int):
+                    if Preempting.n == Preempting.at:
+                        Preempting.n += 1
+                        Preempting.inner = F.compute_checksum(other, 0, len(other))
+                    else:
+                        Preempting.n += 1
+                return bytes.__getitem__(self, i)
+
+        outer = Preempting(frozen[:24])
+        outer_exp = R.fcs16_fast(frozen[:24])
+        for k in range(0, 25):
+            Preempting.at, Preempting.n, Preempting.inner = k, 0, None
+            got = F.compute_checksum(outer, 0, 24)
+            p.add("windows")
+            p.add("interleavings")
+            if got != outer_exp or (Preempting.inner is not None and Preempting.inner != other_exp):
+                p.viol("window", f"window:reentrant:{k}", f"a second compute_checksum running during item access {k} of the first: outer {got:#06x} (reference {outer_exp:#06x}), inner {Preempting.inner!r} (reference {other_exp:#06x})",
+                       {"kind": "window", "data": frozen[:24].hex(), "start": 0, "length": 24, "history": True, "seed": seed}, size=24)
     else:
         for pat in (lambda i: rnd.randrange(256), lambda i: 0x7E, lambda i: i & 0xFF):
             f = F()
